@@ -5,6 +5,7 @@ import (
 	"go/ast"
 	"go/token"
 	"go/types"
+	"strings"
 
 	"golang.org/x/tools/go/cfg"
 )
@@ -187,5 +188,89 @@ func (c *Ctx) ruleNextDrains(rule string) {
 	})
 	if n == 0 {
 		r.Undecided(rule, "sites", "Next has no `return nil, nil`", c.pos(next.Decl.Pos()))
+	}
+}
+
+// ---------- the event primitive records the position it is given ----------
+
+// ruleFoundAtVerbatim: every position that E1 computes for a lexeme event is the argument of foundAt at the call site
+// (cursor, cursor-1, ...). That is the position of the event only if foundAt stores it unchanged: a primitive that
+// moves the position (clamps it to the last byte, rounds it) puts every lexeme that ends at the end of the file
+// somewhere else than the model says - overlapping its neighbour, or on top of the delimiter.
+func (c *Ctx) ruleFoundAtVerbatim(rule string) {
+	r := c.R
+	r.Rule(rule, "scanner.(*Scanner).foundAt appends exactly one event made of its two parameters as they were handed in: neither parameter is assigned in the body, the only composite literal of the event type is built from the two parameter identifiers, and it is appended on every path (no return in front of the append): the positions of the extracted automaton are the positions the scanner reports", 1)
+	f := c.fn("scanner", "Scanner.foundAt")
+	if f == nil {
+		r.Undecided(rule, "anchor", "scanner.(*Scanner).foundAt not found", "")
+		return
+	}
+	pk := f.Pkg
+	params := map[types.Object]bool{}
+	if f.Decl.Type.Params != nil {
+		for _, fld := range f.Decl.Type.Params.List {
+			for _, nm := range fld.Names {
+				if o := pk.TypesInfo.Defs[nm]; o != nil {
+					params[o] = true
+				}
+			}
+		}
+	}
+	key := f.Name() + " | event"
+	bad := ""
+	lits := 0
+	var appendNode ast.Node
+	ast.Inspect(f.Decl.Body, func(nd ast.Node) bool {
+		switch x := nd.(type) {
+		case *ast.AssignStmt:
+			for _, l := range x.Lhs {
+				if id, ok := ast.Unparen(l).(*ast.Ident); ok && params[pk.TypesInfo.ObjectOf(id)] {
+					bad = "the parameter " + id.Name + " is assigned before it is stored"
+				}
+			}
+			for _, rhs := range x.Rhs {
+				if call, ok := ast.Unparen(rhs).(*ast.CallExpr); ok && exprString(call.Fun) == "append" {
+					appendNode = x
+				}
+			}
+		case *ast.IncDecStmt:
+			if id, ok := ast.Unparen(x.X).(*ast.Ident); ok && params[pk.TypesInfo.ObjectOf(id)] {
+				bad = "the parameter " + id.Name + " is changed before it is stored"
+			}
+		case *ast.CompositeLit:
+			if strings.HasSuffix(namedType(pk.TypesInfo.TypeOf(x)), "LexemeEvent") {
+				lits++
+				for _, el := range x.Elts {
+					v := el
+					if kv, ok := el.(*ast.KeyValueExpr); ok {
+						v = kv.Value
+					}
+					if id, ok := ast.Unparen(v).(*ast.Ident); !ok || !params[pk.TypesInfo.Uses[id]] {
+						bad = "the event is built from " + exprString(v) + ", not from a parameter as handed in"
+					}
+				}
+			}
+		}
+		return true
+	})
+	if bad == "" && lits != 1 {
+		bad = fmt.Sprintf("%d event literals in the body (one expected)", lits)
+	}
+	if bad == "" && appendNode != nil {
+		fc := c.cfgOf(f)
+		ast.Inspect(f.Decl.Body, func(nd ast.Node) bool {
+			if ret, ok := nd.(*ast.ReturnStmt); ok && fc.reachesFromEntryAvoiding(ret, []ast.Node{appendNode}) {
+				bad = "a return is reached without appending the event"
+			}
+			return true
+		})
+	}
+	if bad == "" && appendNode == nil {
+		bad = "no append of the event found"
+	}
+	if bad == "" {
+		r.Ok(rule, key, "stores the type and the position it is given, on every path", c.pos(f.Decl.Pos()))
+	} else {
+		r.Bad(rule, key, bad+": the position of a lexeme event is no longer the one the step function computed (E1 takes the argument of foundAt for the position of the event)", c.pos(f.Decl.Pos()))
 	}
 }
